@@ -42,6 +42,15 @@ static void gen_table(Rng& r, Gen& g, uint64_t maxcoef, const std::string& profi
   else if (pat < 6 && (nd == 6 || profile == "C03" || r.coin())) { nd = 6; g.ord = {2, 2, 2, 5, 2, 2}; }
   else if (pat < 8) { int k = r.range(2, 3); for (auto& o : g.ord) o = k; }
   else for (auto& o : g.ord) o = r.range(0, 5);
+  // orders beyond 5 (tables made by convolve(), or read from a file: nothing bounds the order): every order-sized scratch
+  // array of the basis routines has to follow the order
+  if (profile != "C04" && profile != "C02" && r.coin(1, profile == "C01" ? 20 : 10)) {   // (C02: the exact oracle of high-order derivatives is too slow for the quick tier; C05 and C03 run every derivative entry point on these tables)
+    nd = r.range(1, 3); g.ord.assign(nd, 0);
+    for (auto& o : g.ord) o = r.range(0, 3);
+    g.ord[r.range(0, nd - 1)] = r.range(6, 12);
+    if (nd >= 2 && r.coin(1, 3)) g.ord[r.range(0, nd - 1)] = r.range(6, 10);
+    stats["high_order_tables"]++;
+  }
   // shrink until the coefficient count fits
   std::vector<int> extra(nd);
   for (auto& e : extra) { int m = r.range(0, 9); e = m < 3 ? 0 : m < 5 ? 1 : m < 7 ? 2 : r.range(3, 8); }
